@@ -218,10 +218,18 @@ fn gen_impl_delegation_trait_defs(
                     continue;
                 }
 
+                // `__impl` borrows for as long as the `self` receiver
+                let lifetime = match trait_fn.sig().inputs.first() {
+                    Some(syn::FnArg::Receiver(receiver)) => receiver
+                        .reference
+                        .as_ref()
+                        .and_then(|(_, lifetime)| lifetime.clone()),
+                    _ => None,
+                };
                 trait_fn.entrait_sig.sig.inputs.insert(
                     1,
                     syn::parse_quote! {
-                        __impl: &::#entrait::Impl<EntraitT>
+                        __impl: & #lifetime ::#entrait::Impl<EntraitT>
                     },
                 );
             }
